@@ -85,8 +85,11 @@ Definition explain_c11_widths (c : entries_t * Z * list (Z * Z * Z * Z * obs)) :
 (* ---- C11b, large row-id counts (totals beyond the range of a 1- or 2-byte row-id word): row ids are
    given as runs (start, count) and expanded here, so that the case literal stays small *)
 Definition run_t := (list Z * Z * Z)%type.    (* coords, first row id, number of consecutive row ids *)
+(* start, start+1, ... (n of them), counting in Z: [Z.of_nat i] for every i would make the expansion quadratic *)
+Fixpoint zrange (start : Z) (n : nat) : list Z :=
+  match n with O => [] | S n' => start :: zrange (start + 1) n' end.
 Definition expand_run (r : run_t) : list Z * list Z :=
-  let '(k, start, count) := r in (k, map (fun i => start + Z.of_nat i) (seq 0 (Z.to_nat count))).
+  let '(k, start, count) := r in (k, zrange start (Z.to_nat count)).
 Inductive obs_runs := LoadedRuns (rs : list run_t) (common : Z) (rw : Z) | RaisedRuns (code : Z) | LoadedOther.
 Definition obs_of_runs (o : obs_runs) : option obs :=
   match o with
@@ -136,3 +139,19 @@ Definition explain_c12 (c : entries_t * Z * list Z * list Z) :=
   let '(es, common, bytes, codes) := c in
   (sres_is (save es common) bytes,
    map (fun k => match load (firstn k bytes) with LErr s => stage_code s | LOk _ _ _ => 0 end) (seq 0 (length bytes))).
+
+(* ---- C12, files of an independent writer: (entries, common, recorded dims for an empty index, iw, rw,
+   checksum of the real file, per-k stage classes).  The real file is identified with the specification's
+   [layout_d d0 iw rw] by the checksum; hypotheses of C12_torn_any_writer are checked. *)
+Definition chk_c12_layout (c : entries_t * Z * Z * Z * Z * Z * list Z) : bool :=
+  let '(es, common, d0, iw, rw, ck, codes) := c in
+  let file := layout_d d0 (Z.to_nat iw) (Z.to_nat rw) es common in
+  admissible_b (Z.to_nat iw) (Z.to_nat rw) es common && (0 <=? d0) && (d0 <=? 255)
+  && (checksum file =? ck) && Nat.eqb (length codes) (length file)
+  && chk_prefixes file 0 codes.
+
+Definition explain_c12_layout (c : entries_t * Z * Z * Z * Z * Z * list Z) :=
+  let '(es, common, d0, iw, rw, ck, codes) := c in
+  let file := layout_d d0 (Z.to_nat iw) (Z.to_nat rw) es common in
+  (checksum file, length file,
+   map (fun k => match load (firstn k file) with LErr s => stage_code s | LOk _ _ _ => 0 end) (seq 0 (length file))).
